@@ -3,7 +3,7 @@
    The device-list request pacing (candidate D-20) is examined in the C18 development and reported under C13 by the lead. *)
 From Coq Require Import ZArith List Bool.
 From N2kV Require Import Base.ListAux Model.CanId Model.Sched Model.PgnClass Model.NodeDefs Model.NodeRxDefs Gen.GenTables Gen.GenConsts
-  Spec.ClockSpec Proofs.ClockProofs.
+  Spec.ClockSpec Proofs.ClockProofs Proofs.ClockProofsNode3.
 Import ListNotations.
 Local Open Scope Z_scope.
 
@@ -19,6 +19,11 @@ Theorem C13_millis64 : millis64_stmt.  Proof. exact millis64_ok. Qed.
 Print Assumptions C13_millis64.
 Theorem C13_millis64_gap : millis64_gap_stmt.  Proof. exact millis64_gap. Qed.
 Print Assumptions C13_millis64_gap.
+
+Theorem C13_node_shift : node_shift_stmt.  Proof. exact node_shift. Qed.
+Print Assumptions C13_node_shift.
+Theorem C13_node_shift_run : node_shift_run_stmt.  Proof. exact node_shift_run. Qed.
+Print Assumptions C13_node_shift_run.
 
 (* non-vacuity: timers armed shortly before the 32-bit wrap expire on time afterwards; the sentinel bump costs exactly one millisecond;
    the roll counter reconstruction across a wrap *)
@@ -46,3 +51,42 @@ Example C13_nonvacuous_millis64 : forall cfg,
   clock_reads r [2^32 + 5; 2^32 + 70000] = [5; 70000].
 Proof. intros cfg. vm_compute. repeat split. Qed.
 Print Assumptions C13_nonvacuous_millis64.
+
+(* non-vacuity of the node-level theorem: the instance without group functions satisfies the hypothesis on gf; a cold node (64-bit build)
+   at origin 5000 satisfies the bound for the shift c = 2^32 - 5100 (origin 100 ms before the 32-bit wrap); a script with open, claim,
+   an ISO request for the product information, a refused send (pending-information retry), heartbeat: the operations are admissible,
+   and the shifted node produces the same events (here also checked by computation, independently of the theorem) *)
+Lemma gf_none_shift_ok c : gf_shift_ok c gf_none.
+Proof. intros r s H B. unfold gf_none, lift_res. cbn [fst snd]. repeat split; try reflexivity. exact H. Qed.
+
+Definition c13_ops : list rop :=
+  [RPoll; RBase (OTick 1); RPoll; RBase (OTick 201); RPoll; RBase (OTick 251); RPoll;
+   RRx {| r_id := 417994290; r_len := 3; r_buf := [20; 240; 1; 255; 255; 255; 255; 255] |}; RBase (OAccept [false; false; false]); RPoll;
+   RBase (OTick 362); RPoll; RBase (OTick 1); RBase (OAccept []); RPoll; RBase (OTick 1); RPoll;
+   RSetHeartbeat 1000 0 (-1); RBase (OTick 1500); RPoll; RBase (OTick 1000); RPoll;
+   RBase (OSend 0 {| m_pri := 6; m_pgn := 127250; m_src := 0; m_dst := 255; m_data := [1;2;3;4;5;6;7;8]; m_tp := false |})].
+Example C13_nonvacuous_node : forall cfg,
+  let c := 4294962196 in
+  let r0 := cold_node true 1 5000 40 5 no_lists [mk_dev true 22 1 []] [[]] cfg in
+  time_ok c r0 /\ ops_ok c gf_none r0 c13_ops /  snd (rrun gf_none (shift_rnode c r0) c13_ops) = snd (rrun gf_none r0 c13_ops) /  (* the cold node at the other origin differs from the shifted one only in the not yet initialised SyncOffset (see the finding
+     origin-hb-before-open) and behaves the same on this script *)
+  snd (rrun gf_none (cold_node true 1 (5000 + c) 40 5 no_lists [mk_dev true 22 1 []] [[]] cfg) c13_ops) = snd (rrun gf_none r0 c13_ops) /  length (filter (fun l => match l with [] => false | _ => true end) (snd (rrun gf_none r0 c13_ops))) = 7%nat.
+Proof.
+  intros cfg. cbv zeta. split; [|split; [|split; [|split]]].
+  - constructor.
+    + reflexivity.
+    + vm_compute. split; reflexivity.
+    + constructor; [|constructor]. unfold dev_ok. cbn. split; [left; reflexivity|split; [left; reflexivity|vm_compute; split; [discriminate|reflexivity]]].
+    + constructor; [|constructor]. unfold devx_ok, cold_devx. cbn.
+      repeat split; try (left; reflexivity); vm_compute; try discriminate; reflexivity.
+    + split; [reflexivity|vm_compute; apply le_n].
+    + right. vm_compute. split; [discriminate|reflexivity].
+    + vm_compute. split; [discriminate|reflexivity].
+    + cbn. apply Forall_forall. intros s Hs. repeat (destruct Hs as [<-|Hs]; [constructor|]). destruct Hs.
+    + constructor.
+  - vm_compute. repeat split; try discriminate; repeat constructor; try discriminate.
+  - vm_compute. reflexivity.
+  - vm_compute. reflexivity.
+  - vm_compute. reflexivity.
+Qed.
+Print Assumptions C13_nonvacuous_node.
